@@ -76,6 +76,14 @@ func scenarioC09RealT(rc *RunCtx) {
 	t := rc.T
 	N := []int{1, 2, 5, 20}[t.Pick("c09.real.checks", 4)]
 	skipEvery := t.Int("c09.real.skip_every", 0, 4) // 0: never skips
+	// "for all N": a long run of big test cases (millions of words drawn within one Check)
+	volume := 0
+	if t.Chance("c09.real.volume", 20) {
+		N = []int{400, 1000, 1500}[t.Pick("c09.real.bigN", 3)]
+		volume = 2500
+		rc.Inc("probe.long_run_of_big_test_cases")
+	}
+	big := rapid.SliceOfN(rapid.Uint64(), volume, volume)
 	fl := Flags{Checks: N, Steps: 3, Seed: 1 + t.Draw("c09.seed", 1<<32), ShrinkTime: time.Second, NoFailFile: true}
 	fl.Apply()
 	old, _ := os.Getwd()
@@ -86,6 +94,9 @@ func scenarioC09RealT(rc *RunCtx) {
 	passed := curT.Run("realT", rapid.MakeCheck(func(rt *rapid.T) {
 		calls++
 		v := rapid.IntRange(0, 1000).Draw(rt, "v")
+		if volume > 0 {
+			big.Draw(rt, "big")
+		}
 		if skipEvery > 0 && calls%(skipEvery+1) == 0 {
 			rt.Skip("skip", v)
 		}
@@ -165,6 +176,10 @@ func scenarioC09(rc *RunCtx) {
 		pol = ClockPolicy{Kind: ClkDrip, Sub: t.Draw("clock.sub", 1<<20)}
 	case 2:
 		pol = ClockPolicy{Kind: ClkCut, K: t.Int("clock.k", 0, 400), Delta: nearDeadline[t.Pick("clock.delta", len(nearDeadline))]}
+		if staleFiles > 0 && t.Chance("c09.slow_replay", 50) {
+			// the replays of the fail files are slow (hours), the random test cases are not
+			pol = ClockPolicy{Kind: ClkCut, K: t.Int("clock.k_replay", 0, 8+6*staleFiles), Delta: []time.Duration{6 * time.Hour, 10 * time.Hour, 16 * time.Hour}[t.Pick("clock.delta_replay", 3)]}
+		}
 	}
 	cr := RunCheck(prog, RunOpt{Name: name, Dir: dir, Flags: fl, Clock: pol, WithCtx: t.Chance("tb.ctx", 20)})
 	rc.Note(cr)
@@ -194,7 +209,22 @@ func judgeC09(rc *RunCtx, cr *CheckRun, N int, staleFiles int) {
 		rc.Inc("scope.signal_then_skip_excluded")
 		return
 	}
-	nearDL := cr.SimElapsed > time.Hour
+	// Early exit is rapid's answer to a deadline that is near in terms of the time its RANDOM test cases take. Simulated
+	// time that passed while fail files were being replayed (up to the end of the last replay) is no reason for it,
+	// as long as plenty remains (24h until the deadline of a TB without one).
+	var pre time.Duration
+	for _, inv := range w.Invs {
+		if !inv.Custom && inv.Phase == "failfile" {
+			pre = inv.ElapsedAtEnd
+		}
+	}
+	if pre > 17*time.Hour {
+		pre = 0 // little remains afterwards: judged leniently as before
+	}
+	if pre > 0 {
+		rc.Inc("fault.clock_jump_during_fail_file_replay")
+	}
+	nearDL := cr.SimElapsed-pre > time.Hour
 	if nearDL {
 		rc.Inc("fault.clock_near_deadline")
 	}
